@@ -55,7 +55,9 @@ func genFieldProgram(rng *rand.Rand, idx int) (*Conv, []*Conv) {
 	needMissing, needCase, needZero := false, false, false
 	var funcDecls strings.Builder
 	var fl []field
-	kinds := []string{"same", "same", "rename", "path", "ptrpath", "ptrpath2", "hop2", "ignore", "missing", "foldcase", "automap", "func", "ignore_with_source"}
+	kinds := []string{"same", "same", "rename", "path", "ptrpath", "ptrpath2", "hop2", "ignore", "missing", "foldcase", "automap", "func", "ignore_with_source", "unexported", "getter"}
+	needUnexported := false
+	var getterDecls strings.Builder
 	var nestedPtr2Fields, hopFields []string
 	for i := 0; i < n; i++ {
 		k := kinds[rng.Intn(len(kinds))]
@@ -100,6 +102,21 @@ func genFieldProgram(rng *rand.Rand, idx int) (*Conv, []*Conv) {
 			tgtFields = append(tgtFields, fmt.Sprintf("\t%s %s", t, lf.tgt))
 			lines = append(lines, fmt.Sprintf("map Hop.Inner.Hp%s %s", t, t))
 			fields[t] = &FieldSpec{Path: []string{"Hop", "Inner", "Hp" + t}}
+		case "unexported":
+			// an unexported target field is left out under ignoreUnexported (whether or not a source exists)
+			lt := strings.ToLower(t[:1]) + t[1:]
+			if rng.Intn(2) == 0 {
+				srcFields = append(srcFields, fmt.Sprintf("\t%s %s", lt, lf.src))
+			}
+			tgtFields = append(tgtFields, fmt.Sprintf("\t%s %s", lt, lf.tgt))
+			needUnexported = true
+			fields[lt] = &FieldSpec{Ignore: true}
+		case "getter":
+			// the source value is the result of an argument-less method of the source struct
+			fmt.Fprintf(&getterDecls, "func (s PFXS) Get%s() int { return 0 }\n", t)
+			tgtFields = append(tgtFields, fmt.Sprintf("\t%s int", t))
+			lines = append(lines, fmt.Sprintf("map Get%s %s", t, t))
+			fields[t] = &FieldSpec{Whole: true, Fn: "PFXS.Get" + t}
 		case "ignore":
 			tgtFields = append(tgtFields, fmt.Sprintf("\t%s %s", t, lf.tgt))
 			lines = append(lines, "ignore "+t)
@@ -179,6 +196,10 @@ func genFieldProgram(rng *rand.Rand, idx int) (*Conv, []*Conv) {
 		lines = append(lines, "matchIgnoreCase")
 		ps.IgnoreCase = true
 	}
+	if needUnexported {
+		lines = append(lines, "ignoreUnexported")
+		ps.IgnoreUnexported = true
+	}
 	var convLines []string
 	if needZero {
 		// at converter level: generated sub-methods (pointer to a named struct) do not inherit method settings
@@ -186,7 +207,7 @@ func genFieldProgram(rng *rand.Rand, idx int) (*Conv, []*Conv) {
 		spec.ZeroOnNil = true
 	}
 	rng.Shuffle(len(lines), func(i, j int) { lines[i], lines[j] = lines[j], lines[i] })
-	decl += "type PFXS struct {\n" + strings.Join(srcFields, "\n") + "\n}\ntype PFXT struct {\n" + strings.Join(tgtFields, "\n") + "\n}\n" + funcDecls.String()
+	decl += "type PFXS struct {\n" + strings.Join(srcFields, "\n") + "\n}\ntype PFXT struct {\n" + strings.Join(tgtFields, "\n") + "\n}\n" + funcDecls.String() + getterDecls.String()
 	srcT, tgtT := "PFXS", "PFXT"
 	if rng.Intn(3) == 0 {
 		srcT, tgtT = "*PFXS", "*PFXT"
@@ -231,6 +252,19 @@ func genFieldProgram(rng *rand.Rand, idx int) (*Conv, []*Conv) {
 			mk("ambiguousautomap: the same field name below two autoMap paths", amb, append(append([]string{}, lines...), "autoMap Auto2"))
 			break
 		}
+	}
+	if needCase && len(mutants) < 3 {
+		for _, f := range fl {
+			if f.kind == "same" {
+				mk("miscasedsetting: a setting names a target field in another spelling (matchIgnoreCase concerns source fields only)", decl, append(append([]string{}, lines...), "ignore "+strings.ToLower(f.tname)))
+				break
+			}
+		}
+	}
+	if len(mutants) < 3 && rng.Intn(3) == 0 {
+		pd := strings.Replace(decl, "type PFXS struct {\n", "type PFXS struct {\n\tPStr *string\n", 1)
+		pd = strings.Replace(pd, "type PFXT struct {\n", "type PFXT struct {\n\tViaPtr string\n", 1)
+		mk("pathbehindbasicpointer: a mapped path continues behind a pointer to a non-struct", pd, append(append([]string{}, lines...), "map PStr.X ViaPtr"))
 	}
 	if len(mutants) < 2 {
 		mk("unknownignore: goverter:ignore names a field that does not exist", decl, append(append([]string{}, lines...), "ignore NoSuchField"))
